@@ -5,10 +5,31 @@ From BT Require Import Base.Prelude Heap.Forest Spec.PForest.
 
 Definition links := list (option id * list id).       (* entry i: (parent, children) of node i *)
 
+(* an operation as the harness issues it: a plain structural operation, or a constructor call
+   Node(name, parent=..., children=...) on a node id that has not been used before, which is (see
+   BaseNode.__init__) the parent assignment followed - if that succeeded - by the children
+   assignment, each with its own hook fault point *)
+Inductive cop :=
+| P (o : op)
+| Construct (i : id) (pa : arg) (cont : container) (cargs : list arg) (ftp ftc : fault).
+
+Definition cstep (cfg : config) (s : forest) (c : cop) : forest * outcome :=
+  match c with
+  | P o => step cfg s o
+  | Construct i pa cont cargs ftp ftc =>
+      match step cfg s (SetParent i pa ftp) with
+      | (s1, Ok) => step cfg s1 (SetChildren i cont cargs ftc)
+      | r => r
+      end
+  end.
+
+Definition crun (cfg : config) (s : forest) (ops : list cop) : forest :=
+  fold_left (fun st o => fst (cstep cfg st o)) ops s.
+
 Record fcase := FC {
   fc_node : bool;  fc_assert : bool;  fc_n : nat;
   fc_names : list str;  fc_seps : list str;
-  fc_ops : list op;
+  fc_ops : list cop;
   fc_obs : list (links * nat);          (* after each op: links, outcome (0 = accepted, else exn code) *)
   fc_final : list (str * str * nat)     (* Node only: per node (sep, path_name, depth) at the end     *)
 }.
@@ -25,38 +46,55 @@ Definition cfg_of (c : fcase) : config := {| assertions := fc_assert c; is_node 
 Definition accepted (code : nat) : bool := Nat.eqb code 0.
 
 (* model trace against observed trace: same accept/reject decision and same links at every step *)
-Fixpoint agree_trace (c : fcase) (s : forest) (ops : list op) (obs : list (links * nat)) : bool :=
+Fixpoint agree_trace (c : fcase) (s : forest) (ops : list cop) (obs : list (links * nat)) : bool :=
   match ops, obs with
   | [], [] => true
   | o :: ops', (l, code) :: obs' =>
-      let r := step (cfg_of c) s o in
+      let r := cstep (cfg_of c) s o in
       Bool.eqb (is_ok (snd r)) (accepted code)
       && same_links (fst r) (state_of c l)
       && agree_trace c (fst r) ops' obs'
   | _, _ => false
   end.
 
-Fixpoint unmodelled_trace (cfg : config) (s : forest) (ops : list op) : bool :=
+Fixpoint unmodelled_trace (cfg : config) (s : forest) (ops : list cop) : bool :=
   match ops with
   | [] => false
-  | o :: t => let r := step cfg s o in
+  | o :: t => let r := cstep cfg s o in
               match snd r with Err Unmodelled => true | _ => unmodelled_trace cfg (fst r) t end
   end.
 
 (* a per-step predicate folded over the implementation's own trace *)
-Fixpoint impl_trace_all (c : fcase) (P : forest -> op -> forest -> bool -> bool)
-         (before : forest) (ops : list op) (obs : list (links * nat)) : bool :=
+Fixpoint impl_trace_all (c : fcase) (Q : forest -> cop -> forest -> bool -> bool)
+         (before : forest) (ops : list cop) (obs : list (links * nat)) : bool :=
   match ops, obs with
   | o :: ops', (l, code) :: obs' =>
       let after := state_of c l in
-      P before o after (accepted code) && impl_trace_all c P after ops' obs'
+      Q before o after (accepted code) && impl_trace_all c Q after ops' obs'
   | _, _ => true
   end.
 
-Definition check_with (c : fcase) (P : forest -> op -> forest -> bool -> bool) : nat :=
+(* the per-step predicates of Spec/PForest.v lifted to constructor calls: a constructor is two
+   assignments; whatever its outcome, the links afterwards are those of "parent assignment, then -
+   only if that was accepted - children assignment", each of them atomic *)
+Definition prop_C01_cstep (cfg : config) (before : forest) (c : cop) (after : forest) (acc : bool) : bool :=
+  match c with
+  | P o => prop_C01_step cfg before o after acc
+  | Construct _ _ _ _ _ _ =>
+      wf_b after &&
+      (if acc then let r := cstep cfg before c in is_ok (snd r) && same_links (fst r) after else true)
+  end.
+
+Definition prop_C02_cstep (cfg : config) (before : forest) (c : cop) (after : forest) (acc : bool) : bool :=
+  match c with
+  | P o => prop_C02_step before o after acc
+  | Construct _ _ _ _ _ _ => if acc then true else same_links (fst (cstep cfg before c)) after
+  end.
+
+Definition check_with (c : fcase) (P : forest -> cop -> forest -> bool -> bool) : nat :=
   if unmodelled_trace (cfg_of c) (init_of c) (fc_ops c) then F_SKIP else
   flag (negb (agree_trace c (init_of c) (fc_ops c) (fc_obs c))) F_DISAGREE
   + flag (negb (impl_trace_all c P (init_of c) (fc_ops c) (fc_obs c))) F_PROPFAIL.
 
-Definition check_C01 (c : fcase) : nat := check_with c (prop_C01_step (cfg_of c)).
-Definition check_C02 (c : fcase) : nat := check_with c prop_C02_step.
+Definition check_C01 (c : fcase) : nat := check_with c (prop_C01_cstep (cfg_of c)).
+Definition check_C02 (c : fcase) : nat := check_with c (prop_C02_cstep (cfg_of c)).
